@@ -56,6 +56,19 @@ class FileProxy:
 
     def write(self, s):
         run = self._run
+        if run.bufsize is None:
+            self._emit(s)
+            return len(s)
+        # buffered like a real file object: data reaches the file when the buffer fills up, on flush() and on
+        # close() - a rename issued before close() publishes a file that lacks the buffered tail
+        self._buf = getattr(self, '_buf', s[:0]) + s
+        while len(self._buf) >= run.bufsize:
+            chunk, self._buf = self._buf[:run.bufsize], self._buf[run.bufsize:]
+            self._emit(chunk)
+        return len(s)
+
+    def _emit(self, s):
+        run = self._run
         n = len(s)
         cut = run.point('write', self._path, n)
         if cut is not None:
@@ -64,25 +77,33 @@ class FileProxy:
             self._f.flush()
             run.stamp(self._path)
             run.kill_current()
-        r = self._f.write(s)
+        self._f.write(s)
         self._f.flush()
         run.stamp(self._path)
         run.observe(('write', n))
-        return r
 
     def flush(self):
-        if not self.closed:
-            self._f.flush()
+        if self.closed:
+            return
+        if getattr(self, '_buf', None) and not self._run.dead_current():
+            chunk, self._buf = self._buf, self._buf[:0]
+            self._emit(chunk)
+        self._f.flush()
 
     def close(self):
         if self.closed:
             return
-        self.closed = True
         try:
-            self._f.close()
+            if getattr(self, '_buf', None) and not self._run.dead_current():
+                chunk, self._buf = self._buf, self._buf[:0]
+                self._emit(chunk)
         finally:
-            if not self._run.dead_current():
-                self._run.stamp(self._path)
+            self.closed = True
+            try:
+                self._f.close()
+            finally:
+                if not self._run.dead_current():
+                    self._run.stamp(self._path)
 
     def fileno(self):
         return self._f.fileno()
@@ -281,10 +302,11 @@ class Run:
     if ticks remain); beyond the prefix choice 0 is taken. crash=(pid, step_index, cut): the process dies
     just BEFORE its step number step_index (cut None) or inside that write after `cut` units (cut int)."""
 
-    def __init__(self, root, clock, private_names, prefix=(), crash=None, ticks=0, sequential=False, record_keys=False):
+    def __init__(self, root, clock, private_names, prefix=(), crash=None, ticks=0, sequential=False, record_keys=False, bufsize=None):
         self.root = os.path.realpath(root) + os.sep
         self.record_keys = record_keys
         self.keys = []
+        self.bufsize = bufsize      # None: every write() reaches the file at once; N: buffered, see FileProxy
         self.clock = clock
         self.private = tuple(private_names)
         self.prefix = list(prefix)
@@ -568,8 +590,8 @@ class RemoteRun(Run):
     `fout` and waits on `fin` for the parent's go (which also carries the harness clock). Used to replay a
     recorded schedule of the virtual processes with real operating-system processes."""
 
-    def __init__(self, root, clock, pid, fin, fout, write_bytecode):
-        Run.__init__(self, root, clock, (), sequential=True)
+    def __init__(self, root, clock, pid, fin, fout, write_bytecode, bufsize=None):
+        Run.__init__(self, root, clock, (), sequential=True, bufsize=bufsize)
         self.fin, self.fout, self.mypid = fin, fout, pid
         p = Proc(pid, None, write_bytecode)
         self.procs = [p]
